@@ -3,7 +3,7 @@
    arguments that re.compile rejects; check_case re-parses the string with the model and compares exactly.
    For rendered cases it also checks that the harness renderer and guard agree with the model's. *)
 From Coq Require Import List Bool NArith.
-From MV Require Import Base.Bytes Gen.FlowFilterAtoms Model.FilterGrammar Model.FilterBody.
+From MV Require Import Base.Bytes Gen.FlowFilterAtoms Model.FilterGrammar Model.FilterBody Model.FilterHeader.
 Import ListNotations.
 
 Definition atom_eqb (a b : atom) : bool :=
@@ -34,6 +34,9 @@ Fixpoint ast_eqb (a b : ast) : bool :=
    real filter object on the real flow. *)
 Inductive case :=
 | Body (op : N) (f : flowb) (tbl : list (bytes * bool)) (impl : bool)
+| Hdr (op : N) (f : flowh) (tbls : list (list (bytes * bool))) (impl : bool)
+      (* op 0..6 = t tq ts h hq hs a; the fields of the real messages; engine answers (one table, or one per
+         asset pattern for a) on every Content-Type value and on the harness-serialised header blocks *)
 | Case (src : option (expr * style * ws * ws * bool)) (s : bytes) (bad_bin bad_str : list bytes) (impl : option ast).
 
 Definition rex_ok_of (bad_bin bad_str : list bytes) (c a : bytes) : bool :=
@@ -44,6 +47,13 @@ Fixpoint lookup (tbl : list (bytes * bool)) (b : bytes) : bool :=
 
 Definition check_case (c : case) : bool :=
   match c with
+  | Hdr op f tbls impl =>
+      let s := lookup (hd [] tbls) in
+      Bool.eqb (match op with
+                | 0%N => fcontent_type s f | 1%N => fcontent_type_request s f | 2%N => fcontent_type_response s f
+                | 3%N => fhead s f | 4%N => fhead_request s f | 5%N => fhead_response s f
+                | _ => fasset (map lookup tbls) f
+                end) impl
   | Body op f tbl impl =>
       Bool.eqb (match op with 0%N => fbod | 1%N => fbod_request | _ => fbod_response end (lookup tbl) f) impl
   | Case src s bb bs impl =>
